@@ -75,12 +75,19 @@ CHECKS = {
          'gap-free, overlap-free tiling of the source stretch, every match is '
          'highlighted exactly once (in place or in the overlap list), a '
          'highlight is the escaped source span of its match (never empty), '
-         'the regions partition the matches. '
-         'Context lines and line numbers are part of '
-         'the byte-exact executable model and are decided by the '
-         'correspondence run and the HTML-parsing oracle',
+         'the regions partition the matches; the line cells: escaped source '
+         'text is cut exactly at its line breaks, a highlight wraps every '
+         'line of its span on its own, every cell of a region is closed by a '
+         'line-break mark and, its own tags dropped, is one escaped source '
+         'line in order (premise: no < in the style strings and the escaped '
+         'URL); the table of line starts; cell i of a region over lines '
+         'b..e-1 gets number b+i and the numbers never run out. '
+         'Premise not derived: the last highlight ends in front of the start '
+         'of line e. Which lines a region covers (context arithmetic) and the '
+         'no-match branch are part of the byte-exact executable model and are '
+         'decided by the correspondence run and the HTML-parsing oracle',
     ref='6/C16, 11.2',
-    technique='Coq proof (escaping, splitting, region tiling) + byte-exact '
+    technique='Coq proof (escaping, splitting, region tiling, line cells and numbers) + byte-exact '
               'model of genhtml.py run against the implementation + HTML '
               'parser oracle'),
 
